@@ -193,11 +193,13 @@ REG.contract(
         'ed_wf(self)', 'notnone(self._EditDistance__edits)', EDITS_KEPT,
         f'implies(isnone(old({EM})), isnone({EM}))',
         f'implies(old(ed_complete(self)), isnone({EM}) or seqeq({EM}, old({EM})))',
-        'ed_complete(self)',
+        f'implies({M} > 0 or {N} > 0, ed_complete(self))',
         # the script: prefix matches, then the stored script reversed
         'len(result) == len(self.shared_prefix) + len(self._EditDistance__edits)',
-        'forall(i, 0, len(self.shared_prefix), typeis(result[i], "Match") and result[i].from_node == self.shared_prefix[i][0] '
-        'and result[i].to_node == self.shared_prefix[i][1])',
+        'forall(i, 0, len(self.shared_prefix), typeis(result[i], "Match"))',
+        'forall(i, 0, len(self.shared_prefix), result[i].from_node == self.shared_prefix[i][0])',
+        'forall(i, 0, len(self.shared_prefix), result[i].to_node == self.shared_prefix[i][1])',
+        'forall(i, 0, len(self.shared_prefix), isnew(result[i]))',
         'forall(i, 0, len(self._EditDistance__edits), result[len(self.shared_prefix) + i] == '
         'self._EditDistance__edits[len(self._EditDistance__edits) - 1 - i])',
     ],
